@@ -18,7 +18,7 @@ TR01=""; TR03=""; TR04=""
 if [ -f theories/proofs/TranspirationR.vo ]; then
   TR01=$(grep -o "^Theorem transpiration_balance\b" theories/proofs/TranspirationR.v | head -1 | sed 's/Theorem /TranspirationR./')
   TR03=$(grep -o "^Theorem transpiration_bounds\b" theories/proofs/TranspirationR.v | head -1 | sed 's/Theorem /TranspirationR./')
-  TR04=$(grep -o "^Theorem \(tr_le_pot\|trpot_nonneg\|transp_off_season_zero\|irrnet_nonneg\)\b" theories/proofs/TranspirationR.v | sed 's/Theorem /TranspirationR./' | tr '\n' ' ')
+  TR04="TranspirationR.trpot_nonneg TranspirationR.tr_le_pot TranspirationR.off_season_zero=transpiration_off_season_zero TranspirationR.irrnet_lower TranspirationR.irrnet_nonneg_refuted"
 fi
 case "$1" in
 C01|all) $MK C01 "C01 — daily soil-water balance closes: per-process conservation over exact reals, profiles of any length (models Water/*.v, Crop/Roots.v pre_irrigation).  The composition over one day is C01_day_balance (proofs/DayP.v) when present." "$WT" \
@@ -101,13 +101,21 @@ From AC.Init Require Import Inputs.
 From AC.proofs Require Import InputsP.
 Import ListNotations." \
   bind_perm bind_extra_col bind_reindex bind_extra_rows bind_ok_spec bind_positional bind_by_date bind_by_date_length ;;&
-C13|all) $MK C13_schedule "C13 (schedule) — the dated irrigation schedule is re-indexed onto the simulation days exactly: day s+i gets the depth scheduled for that date, 0 otherwise; dates outside the window are dropped." "From Coq Require Import Reals ZArith List Bool.
+C13|all) $MK C13 "C13 — irrigation strategies honour their contracts (model: Water/RainIrr.v irrigation, growth_stage; Water/Transpiration.v for the net-irrigation requirement; real-number instance)." "$BASE
+From AC.Water Require Import RootZone RainIrr Transpiration.
+From AC.proofs Require Import ProfR RainIrrR TranspirationR." \
+  RainIrrR.irr_nonneg RainIrrR.irr_rainfed_zero RainIrrR.irr_off_season_zero RainIrrR.irr_net_zero RainIrrR.irr_daily_cap RainIrrR.irr_season_cap RainIrrR.irr_season_cap_in_season RainIrrR.irr_cum_update RainIrrR.irr_interval_days RainIrrR.irr_interval_amount RainIrrR.irr_schedule_exact RainIrrR.irr_constant_depth RainIrrR.irr_smt_spec RainIrrR.irr_smt_only_if RainIrrR.irr_smt_if RainIrrR.irr_smt_amount RainIrrR.irr_depletion_spec RainIrrR.growth_stage_range TranspirationR.irrnet_lower TranspirationR.irrnet_nonneg_refuted TranspirationR.off_season_zero=transpiration_off_season_zero
+$MK C13_schedule "C13 (schedule) — the dated irrigation schedule is re-indexed onto the simulation days exactly: day s+i gets the depth scheduled for that date, 0 otherwise; dates outside the window are dropped." "From Coq Require Import Reals ZArith List Bool.
 From AC Require Import Num RInst Params.
 From AC.Init Require Import Inputs.
 From AC.proofs Require Import InputsP.
 Import ListNotations." \
   schedule_reindex_ok_iff schedule_reindex_spec schedule_outside_dropped irr_schedule_other ;;&
-C19|all) $MK C19_series "C19 (water-table series) — the daily water-table depth follows the configured observations: step function (Constant) or linear interpolation by date between consecutive observations, first/last depth held outside them (Variable)." "From Coq Require Import Reals ZArith List Bool Sorted.
+C19|all) $MK C19 "C19 — shallow groundwater behaves consistently (model: Water/Groundwater.v = check_groundwater_table, capillary_rise, groundwater_inflow; real-number instance; profiles of any length).  The daily water-table series is C19_series.v." "$BASE
+From AC.Water Require Import Groundwater.
+From AC.proofs Require Import ProfR GroundwaterR." \
+  fcadj_range fcadj_range_table fcadj_far fcadj_loop_pointwise fcadj_early_exit_not_pointwise no_table check_defined gw_inflow_post gw_inflow_above gw_inflow_off gw_inflow_balance gwin_nonneg gw_inflow_in_bounds check_then_inflow_defined capillary_balance cr_nonneg cr_le_99 capillary_cap capillary_in_bounds_eps capillary_in_bounds capillary_in_bounds_refuted no_table_zero capillary_defined
+$MK C19_series "C19 (water-table series) — the daily water-table depth follows the configured observations: step function (Constant) or linear interpolation by date between consecutive observations, first/last depth held outside them (Variable)." "From Coq Require Import Reals ZArith List Bool Sorted.
 From AC Require Import Num RInst Params.
 From AC.Init Require Import Inputs.
 From AC.proofs Require Import InputsP.
